@@ -115,6 +115,44 @@ def reactDirect (g : Graph) (nodes : Nat → Node) (exc : Nat → Nat → E) (re
 def flowSemDirect (g : Graph) (nodes : Nat → Node) (exc : Nat → Nat → E) (refusal : Nat → E) : Sem (FStore E) :=
   { react := reactDirect g nodes exc refusal }
 
+/-! ### parentless nodes wired by hand: an emission is a nested call
+
+A node without a running parent fires its signals itself (`Node._run_finally` → `emit()`): every receiver's `run()`
+is called on the spot, depth first, inside the emitter's own `run()`; what a receiver raises propagates through the
+emitter's epilogue to whoever called the outermost `run()` — unless the epilogue swallows it (`swallow`). Cycles are
+possible: fuel. The log records every `run()` in the order it happened. -/
+
+structure PState where
+  st : Store
+  log : List Entry
+
+/-- call `f` on the receivers one after the other; the first exception ends it -/
+def callAll (f : PState → Nat → PState × Option E) : PState → List Nat → PState × Option E
+  | ps, [] => (ps, none)
+  | ps, j :: rest =>
+    match f ps j with
+    | (ps', some e) => (ps', some e)
+    | (ps', none) => callAll f ps' rest
+
+def push (swallow : Bool) (nodes : Nat → Node) (g : Graph) (exc : Nat → Nat → E) (refusal : Nat → E) :
+    Nat → PState → Nat → PState × Option E
+  | 0, ps, _ => (ps, none)
+  | fuel + 1, ps, i =>
+    let r := runNode nodes ps.st i
+    let started := decide (ps.st.execLog.length < r.1.execLog.length)
+    let ps1 : PState := { st := r.1, log := ps.log ++ [{ child := i, raised := r.2.1, started := started, sigs := r.2.2 }] }
+    -- the epilogue: the emitted signals (`ran` + branch, or `failed`) call their receivers right here
+    let recvs := ((pairs g r.2.2).filter (fun p => !p.2.acc)).map (fun p => p.2.node)
+    let res := callAll (push swallow nodes g exc refusal fuel) ps1 recvs
+    let epi := if swallow then (res.1, none) else res
+    if r.2.1 then
+      -- the node's own run raised (its function, or a refusal): after the epilogue that exception goes on — unless the
+      -- epilogue itself raised
+      match epi with
+      | (p, some e2) => (p, some e2)
+      | (p, none) => (p, some (if started then exc i (r.1.attempts i) else refusal i))
+    else epi
+
 /-- what the caller sees (local children): nothing; one error → `FailedChildError from` it; several → `from None` -/
 inductive Seen (E : Type) where
   | nothing
